@@ -171,7 +171,7 @@ VarExportFindings(km, buf, oi, ei) ==
   LET C == IF ei.k = "v9" THEN "C09" ELSE "C10"
       want == SubSeq(buf, ei.s, ei.e) IN
   IF oi.exp.st = "off" THEN {}
-  ELSE IF oi.exp.st = "panic" THEN {<<"C01", "post", "export", "panic">>}
+  ELSE IF oi.exp.st = "panic" THEN {<<"C01", "post", "export", "panic">>, <<C, "msg", "export", "panic">>}
   ELSE IF oi.exp.st = "ok" /\ oi.exp.bytes = want THEN {}
   ELSE LET per == UNION {SetExportFindings(C, km, ei.k, buf, oi.sets[s], ei.sets[s], oi.sexp[s]) : s \in 1..Len(ei.sets)} IN
        IF per # {} THEN per
